@@ -885,7 +885,7 @@ func c09BadSaveNames(r *Rng, p *profile.Profile) string {
 // unwritable: PPROF_TMPDIR naming a file, a directory below a file, a missing directory, a
 // directory in which files cannot be created (/proc), $HOME empty or a file, TMPDIR a file.
 func c09SaveFaultEnv(r *Rng, e *c09Env) []string {
-	file := e.tmp + "/afile"
+	file := "{TMP}/afile" // {TMP} is expanded to the run's scratch directory when the case is executed
 	switch r.Intn(9) {
 	case 0:
 		return []string{"PPROF_TMPDIR=" + file}
@@ -902,7 +902,7 @@ func c09SaveFaultEnv(r *Rng, e *c09Env) []string {
 	case 6:
 		return []string{"PPROF_TMPDIR=" + file, "HOME=" + file, "TMPDIR=" + file}
 	case 7:
-		return []string{"PPROF_TMPDIR=" + e.tmp + "/ptmp/new/deep/dir"}
+		return []string{"PPROF_TMPDIR={TMP}/ptmp/new/deep/dir"}
 	}
 	return nil
 }
